@@ -119,13 +119,17 @@ func Run(cfg Config, opt Options) (*Result, error) {
 	if err != nil {
 		return nil, fmt.Errorf("setup %s: %w", cfg, err)
 	}
+	popMode := os.FileMode(0604)
+	if cfg.Rel == "populated-ro" {
+		popMode = 0444
+	}
 	for _, n := range cfg.Populate {
 		p := filepath.Join(env.OutDir, n)
 		os.MkdirAll(filepath.Dir(p), 0755)
-		if err := os.WriteFile(p, OldPopulated, 0604); err != nil {
+		if err := os.WriteFile(p, OldPopulated, popMode); err != nil {
 			return nil, err
 		}
-		os.Chmod(p, 0604)
+		os.Chmod(p, popMode)
 	}
 	os.Setenv("TMPDIR", env.Tmp)
 	r := &Result{Cfg: cfg, Env: env}
